@@ -214,6 +214,7 @@ static int asmCase(vh::Rng& g, bool thorough) {
         in.i(threw).d(threw ? 0.0 : ret).d(finalErr).d(finalGoal);
         for (int i = 0; i < nq; ++i) in.i(kind[i]).d(lo[i]).d(hi[i]).d(kind[i] == 1 && !std::isnan(expectQ[i]) ? expectQ[i] : start.getQ()[i]).d(out.getQ()[i]);
         in.emit();
+        std::printf("T 0 0\n");       // the decision logic is exact: the returned goal must agree to the bit
         vh::Line o = vh::O("asm"); o.i(threw ? 0 : 1).d(threw ? 0.0 : ret).i(1); o.emit();
         const std::string key = std::string(mode == 0 ? "assemble" : "track");
         const bool reverted = !threw && mode == 0 && seen.size() > 1 && initErr <= tol && post.second > initGoal;
